@@ -349,6 +349,15 @@ func (g *c14gen) mutate(kind string) (*Topo, string) {
 		if n := g.unusedNode(t); n != nil {
 			t.Nodes = append(t.Nodes, &TNode{Node: n, ID: g.newID(), Addr: n.Addr, MasterID: pickM().ID, Cols7: true})
 		}
+	case "move-node-address": // same node id, new ip:port (role, slots, node count unchanged)
+		if n := g.unusedNode(t); n != nil {
+			tn := t.Nodes[rng.Intn(len(t.Nodes))]
+			if tn.Flags == "" && tn.Link == "" && !tn.Cols7 {
+				n.Loading, n.MasterLinkDown = false, false
+				tn.Node = n
+				tn.Addr = n.Addr
+			}
+		}
 	case "toggle-cport":
 		for _, tn := range t.Nodes {
 			tn.CPort = !tn.CPort
@@ -359,7 +368,7 @@ func (g *c14gen) mutate(kind string) (*Topo, string) {
 	return t, kind
 }
 
-var c14valid = []string{"shift-boundary", "move-range", "single-slot", "unclaim-range", "add-master", "add-replica", "add-replica-loading", "add-replica-linkdown", "remove-replica",
+var c14valid = []string{"move-node-address", "shift-boundary", "move-range", "single-slot", "unclaim-range", "add-master", "add-replica", "add-replica-loading", "add-replica-linkdown", "remove-replica",
 	"remove-master", "failover", "reparent-replica", "change-ids", "flag-master-fail", "flag-replica", "unflag", "migration-markers", "seven-column-line", "toggle-cport", "move-range", "failover"}
 
 var (
@@ -558,7 +567,7 @@ func (p *c14probe) check(ref *c14ref, t *Topo, rng *rand.Rand, full bool) []c14m
 }
 
 func runC14(c *Check, rng *rand.Rand) {
-	c.Rule = "random histories of CLUSTER NODES descriptions (ranges split/moved/single-slot/unclaimed, masters added/removed/failed, failover, replicas added (also loading / link down), removed, re-parented, flagged fail/handshake/noaddr/disconnected, node ids changed, migration markers, 7-column lines, @cport on/off) interleaved with unusable replies (error, nil, +OK, empty, oversized, garbage, two nodes), starting also with an unusable reply; after each valid description routing probes (every range boundary +-1, random slots; writes and reads) are compared with a reference interpreter, polled every 250 ms, verdict at 10 s; after each unusable reply the previous map must still be in force; distinct = (transition kind, preceding unusable kind)"
+	c.Rule = "random histories of CLUSTER NODES descriptions (ranges split/moved/single-slot/unclaimed, masters added/removed/failed, failover, replicas added (also loading / link down), removed, re-parented, flagged fail/handshake/noaddr/disconnected, node ids changed, migration markers, 7-column lines, @cport on/off) interleaved with unusable replies (error, nil, +OK, empty, oversized, garbage, two nodes), starting also with an unusable reply; after each valid description routing probes (every range boundary +-1, random slots; writes and reads) are compared with a reference interpreter, polled every 250 ms, verdict at 10 s; after each unusable reply the previous map must still be in force; one lane (thorough: a third of them) runs with delay hooks armed inside the refresh goroutine and the ticker so that the table rebuild overlaps the refresh; distinct = (transition kind, preceding unusable kind)"
 	c.Assumptions = []string{
 		"'within a few seconds' is restated as <= 10 s after the fake nodes start serving the description (nominal <= ~2 s: 1 s probe tick + 1 s table tick)",
 		"ambiguities resolved permissively: nodes flagged 'fail?' and known replicas that start loading later may be used or not; slots of such masters are not probed",
@@ -581,7 +590,7 @@ func runC14(c *Check, rng *rand.Rand) {
 				}
 			}()
 			hooks := ""
-			if c.Thorough() && l%3 == 1 {
+			if (c.Thorough() && l%3 == 1) || (!c.Thorough() && l == lanes-1) {
 				hooks = "cluster.beforeSetServer=sleep(300)@0.5,cluster.setServerMid=sleep(700)@0.7,cluster.beforeSetReplicaset=sleep(500)@0.5,cluster.beforeServerChanged=sleep(400)@0.5,ticker.afterReadChanged=sleep(300)@0.5,ticker.beforeClearChanged=sleep(600)@0.5"
 			}
 			mode := ""
@@ -721,6 +730,25 @@ func c14lane(c *Check, rng *rand.Rand, lane, steps int, hooks, mode string) {
 		nref := c14interpret(nt, ref.known)
 		if nref == nil {
 			continue
+		}
+		switch st % 3 {
+		case 1:
+			// two different descriptions in quick succession: an intermediate one is served
+			// for a fraction of a tick, then the final one
+			saved := gen.cur
+			gen.cur = nt
+			nt2, kind2 := gen.mutate(c14nextKind(rng))
+			if nref2 := c14interpret(nt2, nref.known); nref2 != nil {
+				nt.Install(env.Cl)
+				time.Sleep(time.Duration(300+rng.Intn(900)) * time.Millisecond)
+				nt, nref, kind = nt2, nref2, kind+"+"+kind2+"(rapid)"
+			} else {
+				gen.cur = saved
+			}
+		case 2:
+			// the connection that carries the topology probe is lost now and then
+			env.Cl.KillProbeConns(2)
+			kind += "(probe-connection-lost)"
 		}
 		gen.cur = nt
 		nt.Install(env.Cl)
